@@ -82,7 +82,17 @@ def success_order(ctx, rule='success-only-after-fresh-sorted-convergence-test'):
             if hit is not None:
                 problems.append('pairs / search space modified between sort and check')
         # return value: number of set flags among the first nev
-        rets = [sym(fn, r['value'], inline=False) for r in fn.walk() if r['k'] == 'ReturnStmt']
+        retn = [r for r in fn.walk() if r['k'] == 'ReturnStmt']
+        # `return 0` under a guard that says fewer than nev pairs exist (nothing was computed) is the count itself: accept it
+        main = []
+        for r in retn:
+            t = sym(fn, r['value'], inline=False)
+            if t == ('lit', '0'):
+                gs = [sym(fn, c, inline=False) for c, tr in paths.enclosing_assumptions(fn, r) if tr]
+                if any(g[0] == '<' and g[1][0] == 'size' and g[2][0] == 'F' for g in gs):
+                    continue
+            main.append(t)
+        rets = main
         okr = len(rets) == 1 and rets[0][0] == 'sum' and rets[0][1][0] == 'head' and rets[0][1][1][0] == 'cast' and \
             rets[0][1][1][1][0] == 'converged_eigenvalues' and rets[0][1][2][0] == 'F'
         if not okr:
